@@ -781,6 +781,7 @@ class _InlineNewHelpers(_InlineMethods):
             for _ in range(3):
                 _scalar_replacement(fn, records)
                 _propagate_temporaries(fn)
+            _fuse_filtering_generators(fn)
             # `if helper(..) and B:` became `t = <expanded helper>; if t and B:` -- the two conditions are tested one after the other
             for x in ast.walk(fn):
                 if isinstance(x, ast.If) and not x.orelse and isinstance(x.test, ast.BoolOp) and isinstance(x.test.op, ast.And) and \
@@ -1256,9 +1257,14 @@ class _InlineNewHelpers(_InlineMethods):
                 recv = init.args.args[0].arg
                 init_vals = []
                 body = [b for b in init.body if not (isinstance(b, ast.Expr) and isinstance(b.value, ast.Constant))]
+                def recv_only_calls_static(v):
+                    # the receiver may appear in a field's first value only to call a static method of the class (which does not look at the object)
+                    okc = {id(c.func.value) for c in ast.walk(v) if isinstance(c, ast.Call) and isinstance(c.func, ast.Attribute) and isinstance(c.func.value, ast.Name) and
+                           c.func.value.id == recv and c.func.attr in methods and self._is_static(methods[c.func.attr])}
+                    return all(id(y) in okc for y in ast.walk(v) if isinstance(y, ast.Name) and y.id == recv)
                 for b in body:
                     if isinstance(b, ast.Assign) and len(b.targets) == 1 and isinstance(b.targets[0], ast.Attribute) and isinstance(b.targets[0].value, ast.Name) and \
-                            b.targets[0].value.id == recv and not any(isinstance(y, ast.Name) and y.id == recv for y in ast.walk(b.value)):
+                            b.targets[0].value.id == recv and recv_only_calls_static(b.value):
                         init_vals.append((b.targets[0].attr, b.value))
                     else:
                         ok = False
@@ -1381,7 +1387,12 @@ class _InlineNewHelpers(_InlineMethods):
                     callorder = [p_ for p_ in bound if p_ not in simple]
                     if len(set(heavy)) != len(heavy) or heavy != [p_ for p_ in callorder if p_ in heavy] or set(callorder) - set(heavy):
                         continue
-                    vals = [(f_, _Subst({p_: a for p_, a in bound.items()}).visit(copy.deepcopy(v))) for f_, v in o['init_vals']]
+                    recv_i = o['init'].args.args[0].arg
+                    vals = [(f_, _Rename({recv_i: x}).visit(_Subst({p_: a for p_, a in bound.items()}).visit(copy.deepcopy(v)))) for f_, v in o['init_vals']]
+                    calls_back = any(isinstance(y, ast.Name) and y.id == x for _f, v in vals for y in ast.walk(v))
+                    if calls_back and len(objs) > 1:
+                        continue
+                    snapshot = copy.deepcopy(G.body) if calls_back else None
                 # names of the field variables: the field's own name where the function has no such name
                 taken = {y.id for y in ast.walk(G) if isinstance(y, ast.Name)} | {a.arg for a in G.args.posonlyargs + G.args.args + G.args.kwonlyargs}
                 stored_fields = {a.attr for a in attr_values.values() if isinstance(a.value, ast.Name) and a.value.id == x and isinstance(a.ctx, (ast.Store, ast.Del))}
@@ -1415,6 +1426,13 @@ class _InlineNewHelpers(_InlineMethods):
                 for n_ in new_stmts:
                     ast.fix_missing_locations(n_)
                 self.touched[id(G)] = G
+                if o['kind'] == 'plain' and calls_back:
+                    # the first values call static methods of the class: those are expanded now; if anything of the object is left, nothing is done at all
+                    for _ in range(2):
+                        G.body = self._block(G.body, G, {})
+                    if any(isinstance(y, ast.Name) and y.id == x for y in ast.walk(G)):
+                        G.body = snapshot
+                        continue
                 # the class is no longer part of the analysed program once nothing mentions it
                 if not any(isinstance(y, ast.Name) and y.id == o['cls'].name for y in ast.walk(self.tree)):
                     self.tree.body = [b for b in self.tree.body if b is not o['cls']]
@@ -1473,6 +1491,14 @@ class _InlineNewHelpers(_InlineMethods):
                 r = self._callee(gcall, host)
                 if r is not None and self._eligible(host, r[0], generator=True):
                     got = self._try_expand(st, gcall, None, host, on_return=lambda ret: [])
+                    if got is not None:
+                        out += got
+                        continue
+            # `for x in helper(...): BODY` with a generator helper: the helper's statements with `x = <yielded value>; BODY` in place of each yield
+            if isinstance(st, ast.For) and isinstance(st.iter, ast.Call) and not st.orelse and isinstance(st.target, (ast.Name, ast.Tuple)):
+                r = self._callee(st.iter, host)
+                if r is not None and self._eligible(host, r[0], generator=True):
+                    got = self._expand_generator_loop(st, host, r)
                     if got is not None:
                         out += got
                         continue
@@ -1713,6 +1739,116 @@ class _InlineNewHelpers(_InlineMethods):
                 if isinstance(y, (ast.stmt, ast.Name)) and not hasattr(y, '_exp'):
                     y._exp = self.counter
         return res or [ast.copy_location(ast.Pass(), st)]
+
+    def _expand_generator_loop(self, st, host, r):
+        """the consumer's loop body runs once per yield, at the yield: a `break` of the consumer leaves the whole expanded block, a `continue`
+        goes on with the helper (only possible where the yield is the last thing its loop does), the helper's `return` ends the loop"""
+        import copy
+        m, has_recv = r
+        ys = [x for x in ast.walk(m) if isinstance(x, (ast.Yield, ast.YieldFrom))]
+        ystmts = [x for x in ast.walk(m) if isinstance(x, ast.Expr) and isinstance(x.value, ast.Yield)]
+        if not ys or len(ys) != len(ystmts) or any(isinstance(x, ast.YieldFrom) for x in ys):
+            return None
+        if any(isinstance(x, (ast.FunctionDef, ast.Lambda)) and x is not m for x in ast.walk(m)):
+            return None
+
+        def level(stmts, kind):
+            for s_ in stmts:
+                if isinstance(s_, kind):
+                    return True
+                if isinstance(s_, (ast.For, ast.While, ast.FunctionDef, ast.AsyncFunctionDef, ast.ClassDef)):
+                    continue
+                for fld in ('body', 'orelse', 'finalbody'):
+                    if level(getattr(s_, fld, []) or [], kind):
+                        return True
+                for h_ in getattr(s_, 'handlers', []):
+                    if level(h_.body, kind):
+                        return True
+            return False
+        has_break = level(st.body, ast.Break)
+        has_continue = level(st.body, ast.Continue)
+        size = sum(1 for b in st.body for x in ast.walk(b) if isinstance(x, ast.stmt))
+        if len(ys) > 1 and size > 20:
+            return None
+        if has_continue:
+            # every yield must be the last statement of the body of a loop of the helper
+            ok = True
+            for y in ystmts:
+                owner = next((lp for lp in ast.walk(m) if isinstance(lp, (ast.For, ast.While)) and lp.body and lp.body[-1] is y), None)
+                ok = ok and owner is not None
+            if not ok:
+                return None
+        if any(isinstance(x, ast.Try) and any(y is z for y in ystmts for z in ast.walk(x)) for x in ast.walk(m)):
+            return None                 # a yield under try / finally of the helper: the consumer's exceptions would pass through it
+
+        class _Y(ast.NodeTransformer):
+            def visit_Expr(self_, node):
+                if isinstance(node.value, ast.Yield):
+                    a = ast.copy_location(ast.Assign(targets=[ast.Name(id='__yielded__', ctx=ast.Store())], value=node.value.value or ast.Constant(value=None), type_comment=None), node)
+                    a._yield_marker = True
+                    return a
+                return node
+        m2 = _Y().visit(copy.deepcopy(m))
+        ast.fix_missing_locations(m2)
+        # a helper that yields its own variables under the names the consumer gives them is an extracted loop that kept its names
+        def same(a, b):
+            if isinstance(a, ast.Name) and isinstance(b, ast.Name):
+                return a.id == b.id
+            return isinstance(a, ast.Tuple) and isinstance(b, ast.Tuple) and len(a.elts) == len(b.elts) and all(same(x, y) for x, y in zip(a.elts, b.elts))
+        keep = ()
+        if all(y.value.value is not None and same(y.value.value, st.target) for y in ystmts):
+            keep = tuple(x.id for x in ast.walk(st.target) if isinstance(x, ast.Name))
+        try:
+            res = self._expand(st, st.iter, None, host, m2, has_recv=has_recv, on_return=lambda ret: [], keep=keep)
+        except Exception:
+            return None
+        self.counter += 1
+        bid = self.counter
+
+        class _B(ast.NodeTransformer):
+            def visit_Break(self_, node):
+                leave = ast.copy_location(ast.Pass(), node)
+                leave._leave_id = bid
+                return leave
+
+            def visit_For(self_, node):
+                return node
+            visit_While = visit_FunctionDef = visit_AsyncFunctionDef = visit_Lambda = visit_For
+
+        def body_copy():
+            outb = []
+            for b in st.body:
+                nb = _B().visit(copy.deepcopy(b))
+                outb += nb if isinstance(nb, list) else [nb]
+            return outb
+
+        def place(stmts):
+            out_ = []
+            for s_ in stmts:
+                if isinstance(s_, ast.Assign) and len(s_.targets) == 1 and isinstance(s_.targets[0], ast.Name) and s_.targets[0].id == '__yielded__':
+                    if not same(s_.value, st.target):
+                        out_.append(ast.copy_location(ast.Assign(targets=[copy.deepcopy(st.target)], value=s_.value, type_comment=None), s_))
+                    out_ += body_copy()
+                    continue
+                for fld in ('body', 'orelse', 'finalbody'):
+                    sub = getattr(s_, fld, None)
+                    if isinstance(sub, list) and not isinstance(s_, (ast.FunctionDef, ast.AsyncFunctionDef, ast.ClassDef)):
+                        setattr(s_, fld, place(sub))
+                for h_ in getattr(s_, 'handlers', []):
+                    h_.body = place(h_.body)
+                out_.append(s_)
+            return out_
+        res = place(res)
+        if has_break:
+            blk = ast.copy_location(ast.If(test=ast.copy_location(ast.Constant(value=True), st), body=res, orelse=[]), st)
+            blk._inlined_block_id = bid
+            res = [blk]
+        for x in res:
+            ast.fix_missing_locations(x)
+        self.touched[id(host)] = host
+        self.expanded.add(id(m))
+        self._import_globals_of(m)
+        return res
 
     def _try_expand(self, st, call, target, host, tail=False, on_return=None, keep=()):
         m, has_recv = self._callee(call, host)
@@ -2046,6 +2182,53 @@ def _loop_over_generator(fn):
                 if a is not None:
                     del lst[a]
                 return _loop_over_generator(fn)
+
+
+def _fuse_filtering_generators(fn):
+    """`g = (x for x in IT if C)` -- a generator that only filters, made just before its single use -- consumed by a comprehension
+    `[F(y) for y in g]`: the comprehension runs over IT itself with the filter as its own condition"""
+    import copy
+    names = {}
+    for y in ast.walk(fn):
+        if isinstance(y, ast.Name):
+            names[y.id] = names.get(y.id, 0) + 1
+    for x in ast.walk(fn):
+        for fld in ('body', 'orelse', 'finalbody'):
+            lst = getattr(x, fld, None)
+            if not isinstance(lst, list):
+                continue
+            for a, st in enumerate(lst[:-1]):
+                if not (isinstance(st, ast.Assign) and len(st.targets) == 1 and isinstance(st.targets[0], ast.Name) and isinstance(st.value, ast.GeneratorExp) and names.get(st.targets[0].id) == 2):
+                    continue
+                gen = st.value
+                if len(gen.generators) != 1 or gen.generators[0].is_async or not isinstance(gen.generators[0].target, ast.Name) or \
+                        not (isinstance(gen.elt, ast.Name) and gen.elt.id == gen.generators[0].target.id):
+                    continue
+                # the single use: a comprehension of a following statement, with only plain constant bindings or bindings that do not touch the
+                # generator's names in between
+                gname = st.targets[0].id
+                gen_names = {y.id for y in ast.walk(gen) if isinstance(y, ast.Name)}
+                user = None
+                for b in range(a + 1, len(lst)):
+                    nxt = lst[b]
+                    comps = [c for c in ast.walk(nxt) if isinstance(c, (ast.ListComp, ast.GeneratorExp, ast.SetComp)) and len(c.generators) == 1 and
+                             isinstance(c.generators[0].iter, ast.Name) and c.generators[0].iter.id == gname and isinstance(c.generators[0].target, ast.Name)]
+                    if comps:
+                        if isinstance(nxt, (ast.Assign, ast.Expr, ast.Return, ast.AugAssign)):
+                            user = comps[0]
+                        break
+                    if not (isinstance(nxt, ast.Assign) and all(isinstance(t, ast.Name) and t.id not in gen_names for t in nxt.targets) and
+                            not any(isinstance(y, ast.Call) for y in ast.walk(nxt.value) if not (isinstance(y, ast.Call) and isinstance(y.func, ast.Attribute) and y.func.attr in ('format', 'join')))):
+                        break
+                if user is None:
+                    continue
+                inner, outer = gen.generators[0], user.generators[0]
+                ren = _Rename({inner.target.id: outer.target.id})
+                outer.iter = inner.iter
+                outer.ifs = [ren.visit(copy.deepcopy(c)) for c in inner.ifs] + outer.ifs
+                ast.fix_missing_locations(user)
+                del lst[a]
+                return _fuse_filtering_generators(fn)
 
 
 def _unroll_constant_loops(fn, new_callables=()):
